@@ -15,6 +15,7 @@ def rewrite_event(c):
     try:
         import synfam
         obj = synfam.build(T(c['f']), Lang, c.get('style', 'obj'))
+        ev['f'] = to_tree(obj)          # the input is the object as the library itself reads it (class names, subformulas(), name)
         if c['op'] == 'restrict':
             g = obj.get_equivalent_restricted_formula()
         else:
@@ -88,6 +89,7 @@ def run(ctx):
     shallow = [c for c in cases if c['op'] == 'restrict' and gen.size(T(c['f'])) <= 7]
     for c in rnd.sample(shallow, min(len(shallow), 500 if q else 12000)):
         extra.append(dict(c, style='raw'))
+        extra.append(dict(c, style=rnd.choice(['strsub', 'rewrap', 'ops'])))
     odds = [{'p': 'False', 'q': 'tRue'}, {'p': 'True', 'q': 'x'}, {'p': 'None', 'q': 'Until'}, {'p': 'a', 'q': 'FALSE'}]
     for lg, kind, leaf in (('CTL', 'state', P), ('LTL', 'path', P), ('CTLS', 'state', TR), ('CTLS', 'path', ('X', Q)), ('LTL', 'path', ('U', P, Q)),
                            ('CTL', 'state', ('and', P, Q)), ('CTLS', 'state', ('E', ('F', P)))):
